@@ -998,6 +998,8 @@ def oracle(case, log, payload):
     oc = case["outcome"]
     tag = "%s:%s" % (oc, "text" if case["doc_is_text"] else "ast")
     full_log = log
+    never_awaited = set()
+    plan_d = plan_of(prepared(case))
     aborted = has_abort(case["fields"])
     sync_cfg = cfg in ("blocking", "exec-blocking")
     has_ref = any(e[0] == "h" and e[1] == REF for e in full_log) or bool(partial)
@@ -1069,9 +1071,18 @@ def oracle(case, log, payload):
             fidx = [i for i, n in enumerate(names) if n.startswith("field")]
             if lo is None or hi is None or min(fidx) < lo or max(fidx) > hi:
                 late = [pstr(hooks[i][1]) + names[i][-1] for i in fidx if hi is not None and i > hi][:3]
-                bad.append(("field-hook-outside-execution-stage:%s:%s" % ("after-end" if late else "other", cfg),
+                n4 = aborted and cfg == "threadpool" and late and min(fidx) >= (lo if lo is not None else 0)
+                bad.append((("field-hook-after-execution-end:sibling-in-flight-at-abort:threadpool" if n4 else
+                             "field-hook-outside-execution-stage:%s:%s" % ("after-end" if late else "other", cfg)),
                             "field hooks fire outside on_execution_start .. on_execution_end: %s" % (late or names[:12])))
+        invoked = {e[1] for e in log if e[0] == "call"}
         for p in set(starts) | set(ends):
+            if (aborted and cfg == "asyncio" and len(starts.get(p, [])) == 1 and not ends.get(p) and p not in invoked
+                    and plan_d.get(p, {}).get("o") != "arg" and not is_meta_path(p, plan_d)):
+                never_awaited.add(p)
+                bad.append(("field-end-missing:never-awaited-sibling-of-sync-abort:asyncio",
+                            "field %s was started, a later sibling aborted the request synchronously, its coroutine was never awaited: no end hook" % pstr(p)))
+                continue
             if len(starts.get(p, [])) != 1 or len(ends.get(p, [])) != 1:
                 bad.append(("field-hooks-count:%d+%d-:%s" % (len(starts.get(p, [])), len(ends.get(p, [])), cfg),
                             "field %s: %d start hooks, %d end hooks" % (pstr(p), len(starts.get(p, [])), len(ends.get(p, [])))))
@@ -1145,7 +1156,7 @@ def oracle(case, log, payload):
             bad.append(("middleware-without-field:%s" % cfg, "field %s: middlewares ran but no start hook fired" % pstr(k[1])))
     # --- ApolloTracer
     if payload is not None:
-        bad += tracer_oracle(case, full_log, payload)
+        bad += tracer_oracle(case, full_log, payload, never_awaited)
     return bad
 
 
@@ -1174,7 +1185,7 @@ def override_class(hooks):
     return "mixed(field%s%s)" % ("+" if has_fs else "", "-" if has_fe else "")
 
 
-def tracer_oracle(case, log, payload):
+def tracer_oracle(case, log, payload, never_awaited=()):
     bad = []
     tag = case["outcome"]
     if "__error__" in payload:
@@ -1197,6 +1208,8 @@ def tracer_oracle(case, log, payload):
     if sorted((tuple(r["path"]) for r in res), key=repr) != started:
         bad.append(("tracer-resolvers:%s" % tag, "tracing resolvers %r differ from the started fields %r" % ([r["path"] for r in res], started)))
     for r in res:
+        if tuple(r["path"]) in never_awaited:
+            continue            # reported as field-end-missing:never-awaited-sibling-of-sync-abort
         if not isinstance(r.get("duration"), int) or not isinstance(r.get("startOffset"), int):
             bad.append(("tracer-resolver-open:%s" % tag, "tracing resolver entry without duration: %r" % (r,)))
             break
